@@ -41,6 +41,7 @@ class C08(Pipeline):
         "digest per block = app hash + every ExecTxResult (code, codespace, data, gas wanted/used, events with attribute order and index flag) + FinalizeBlock events, validator updates, consensus parameter updates; the free-text log of a failed transaction is NOT part of the digest (it is not part of consensus and contains stack addresses)",
         "Restart = App object dropped, app.New on the same database (the wasm compilation cache directory is fresh: the dropped VM keeps its lock for the life of the process); environment = the variables Paloma code reads (grep os.Getenv/LookupEnv in /repo: PALOMA_FF_PIGEON_STATUS_UPDATE in x/paloma msg server, PIGEON_HEALTHCHECK_PORT in app/pigeon.go)",
         "map iteration order: Go re-randomises per range statement, so re-runs inside one process and the 8 driver processes all sample different orders; equality is established on the generated histories, not proved",
+        "wall clock against block time: genesis is 2024-01-01 with 5 s blocks, so block time is years behind the process clock in every history; in addition one world ('clock') is built with its genesis anchored to the real clock such that the valset published on the chains becomes 30 days old in wall-clock terms 60 s after its preparation started (in block time it is 21 minutes old): the reference run and its re-runs execute before that moment, the perturbed twin 1.5 s after it; the clock cannot be faked in-process, so other wall-clock boundaries (if code had any) are only covered by the distance between block time and real time",
         "wall clock: thorough tier starts every 20th perturbed twin >= 1.1 s after its reference; all twins run at different wall-clock times anyway (sequential)",
     ]
 
@@ -90,6 +91,9 @@ class C08(Pipeline):
         split = sum(1 for e in blocks if any(t in e["args"]["txs"] for t in ("refsplit", "balsplit", "txsplit", "attestsplit3", "attestsplit")))
         if split == 0:
             self._vacuity.append("vacuous drive: no block with contentious evidence")
+        clocks = [e["clock"] for e in events if e["act"] == "Init" and e["args"].get("world") == "clock"]
+        if "straddled" not in clocks:
+            self._vacuity.append("vacuous drive: no history whose twins straddle the wall-clock boundary of the anchored world (%s)" % clocks)
         nok = sum(e["nok"] for e in blocks)
         ntx = sum(e["ntx"] for e in blocks)
         if nok == 0 or nok == ntx:
